@@ -11,7 +11,6 @@ WRITER_MODS = ['self._data.buf', 'self._tag_stack[]', 'self._indent']
 
 # child writers that are not yet verified themselves: assumed to use the writer in a balanced way
 for _name, _params in (('_write_generic', {'self': 'GIRWriter', 'node': 'Annotated|Type'}),
-                       ('_write_type', {'self': 'GIRWriter', 'ntype': 'Type', 'relation': 'any', 'parent': 'Node?'}),
                        ('_write_type_ref', {'self': 'GIRWriter', 'ntype': 'Type'})):
     contract(G + _name, params=_params, trusted=True, requires=['wf(self)'], modifies=WRITER_MODS,
              raises={'ValueError': 'maybe', 'AssertionError': 'maybe'},
@@ -21,6 +20,47 @@ for _name, _params in (('_write_generic', {'self': 'GIRWriter', 'node': 'Annotat
 
 def present(v):
     return v is not None
+
+
+# ---- <type> / <array> / <varargs>: the array attributes (C01 array annotations, C07 writer side) ----------------------
+def gir_zero_terminated(zt_attr, length_attr, fixed_attr):
+    """how a GIR reader interprets an <array>: an explicit zero-terminated attribute decides, otherwise the array is
+    zero-terminated exactly when it has neither a length nor a fixed size (girparser.c / gir-1.2.rnc)"""
+    if zt_attr is not None:
+        return zt_attr == '1'
+    return length_attr is None and fixed_attr is None
+
+
+def length_index(parent, ntype):
+    if isinstance(parent, ast.Callable):
+        return parent.get_parameter_index(ntype.length_param_name)
+    if isinstance(parent, ast.Compound):
+        return parent.get_field_index(ntype.length_param_name)
+    return -1      # not reached: the writer asserts that the parent is a callable or a compound
+
+
+inline(G + '_type_to_name')
+ARR = "implies(arg_tag_name == \\'array\\', %s)"
+contract(G + '_write_type', params={'self': 'GIRWriter', 'ntype': 'Type', 'relation': 'any', 'parent': 'Node?'},
+         props=('C01', 'C07'), requires=['wf(self)'], modifies=WRITER_MODS,
+         raises={'ValueError': 'True', 'AssertionError': 'True', 'Exception': 'True'},
+         ensures={
+             'balanced': 'wf(self) and len(self._tag_stack) == old(len(self._tag_stack))',
+             'C01+C07.emit.array.element_only_for_arrays': "all_calls('tagcontext', '(arg_tag_name == \\'array\\') == isinstance(ntype, ast.Array)')",
+             'C01+C07.emit.array.zero_terminated_as_read_back': "all_calls('tagcontext', '" + ARR % (
+                 "gir_zero_terminated(attr_of(arg_attributes, \\'zero-terminated\\'), attr_of(arg_attributes, \\'length\\'), "
+                 "attr_of(arg_attributes, \\'fixed-size\\')) == bool(ntype.zeroterminated)") + "')",
+             'C01+C07.emit.array.fixed_size': "all_calls('tagcontext', '" + ARR % (
+                 "attr_of(arg_attributes, \\'fixed-size\\') == (str(ntype.size) if ntype.size is not None else None)") + "')",
+             'C01+C07.emit.array.length_index': "all_calls('tagcontext', '" + ARR % (
+                 "attr_of(arg_attributes, \\'length\\') == (str(length_index(parent, ntype)) "
+                 "if ntype.length_param_name is not None else None)") + "')",
+             'C01+C07.emit.array.kind': "all_calls('tagcontext', '" + ARR % (
+                 "attr_of(arg_attributes, \\'name\\') == (ntype.array_type if ntype.array_type != ast.Array.C else None)") + "')",
+             'C01+C07.emit.array.ctype': "all_calls('tagcontext', 'attr_of(arg_attributes, \\'c:type\\') == "
+                                     "(ntype.complete_ctype if ntype.complete_ctype else (ntype.ctype if ntype.ctype else None))')",
+         },
+         note='recursive calls for element / key / value types go by this contract')
 
 
 def flag(b):
